@@ -1,5 +1,6 @@
 use crate::Stream;
 
+pub mod c03;
 pub mod c04;
 pub mod c07;
 pub mod c08;
@@ -19,6 +20,7 @@ pub mod c20;
 pub fn lookup(name: &str) -> Option<Box<dyn Stream>> {
     match name {
         "c19" => Some(Box::new(c19::C19::new())),
+        "c03" => Some(Box::new(c03::C03::new())),
         "c04" => Some(Box::new(c04::C04::new())),
         "c07" => Some(Box::new(c07::C07::new())),
         "c14" => Some(Box::new(c14::C14::new())),
